@@ -35,6 +35,7 @@ type CEnv struct {
 	vars      map[string]CVal
 	frame     *Frame // locals visible (loop invariants); nil for pre/post
 	loopBlock *ssa.BasicBlock
+	virt      *virtLoop // callback iteration at a call site, treated as a loop
 	iter      *RangeIter
 	pkg       string
 	tsubst    map[string]types.Type
@@ -59,6 +60,13 @@ func (run *FuncRun) contractEnv(st *State, old *Snapshot, fr *Frame) *CEnv {
 		env.vars[k] = v
 	}
 	return env
+}
+
+func (env *CEnv) shadowName(n string) {
+	if env.shadow == nil {
+		env.shadow = map[string]bool{}
+	}
+	env.shadow[n] = true
 }
 
 func (env *CEnv) clone() *CEnv {
@@ -752,23 +760,35 @@ func (env *CEnv) call(c *ECall) CVal {
 		env.fail("fresh of sort %s", v.T.Sort)
 	case "atloop":
 		// value of an expression in the heap as it was when the enclosing loop was entered
-		if env.frame == nil || env.loopBlock == nil || env.frame.loopEntry[env.loopBlock.Index] == nil {
-			env.fail("atloop() outside a loop invariant")
+		var le *Snapshot
+		var lloc map[*ssa.Alloc]Val
+		if env.virt != nil {
+			le, lloc = env.virt.entry, env.virt.locals
+		} else {
+			if env.frame == nil || env.loopBlock == nil || env.frame.loopEntry[env.loopBlock.Index] == nil {
+				env.fail("atloop() outside a loop invariant")
+			}
+			le = env.frame.loopEntry[env.loopBlock.Index]
+			lloc = env.frame.loopLocals[env.loopBlock.Index]
 		}
-		le := env.frame.loopEntry[env.loopBlock.Index]
 		n := env.clone()
 		n.cur = snapReader{le, env.run, env.scriptOf()}
 		n.curAlloc = le.alloc
-		n.localsAt = env.frame.loopLocals[env.loopBlock.Index]
+		n.localsAt = lloc
 		v := n.eval(c.Args[0])
 		env.facts = append(env.facts, n.facts...)
 		return v
 	case "loopfresh":
 		// allocated since the enclosing loop was entered (or nil)
-		if env.frame == nil || env.loopBlock == nil || env.frame.loopEntry[env.loopBlock.Index] == nil {
-			env.fail("loopfresh() outside a loop invariant")
+		var le *Snapshot
+		if env.virt != nil {
+			le = env.virt.entry
+		} else {
+			if env.frame == nil || env.loopBlock == nil || env.frame.loopEntry[env.loopBlock.Index] == nil {
+				env.fail("loopfresh() outside a loop invariant")
+			}
+			le = env.frame.loopEntry[env.loopBlock.Index]
 		}
-		le := env.frame.loopEntry[env.loopBlock.Index]
 		v := env.eval(c.Args[0])
 		switch v.T.Sort {
 		case SInt, SRef:
